@@ -1245,15 +1245,12 @@ class UCSReplication(MessagePassingComputation):
         max_agt = min(self.k_target - 1, len(tentative_agents))
         max_footprint = 0
         for selected in itertools.combinations(tentative_agents, max_agt):
-            try:
-                total_footprint = self.memoize_footprint[selected]
-            except KeyError:
-
-                total_footprint = sum(
-                    f for a, f in self._hosted_replicas.values() if a in selected
-                )
-                self.memoize_footprint[selected] = total_footprint
-
+            # No caching here: the footprint for a set of owners changes every
+            # time a replica is accepted or removed (and differs between the
+            # agents of a process).
+            total_footprint = sum(
+                f for a, f in self._hosted_replicas.values() if a in selected
+            )
             max_footprint = max(total_footprint, max_footprint)
         return max_footprint
 
